@@ -1466,8 +1466,40 @@ def _g4(ctx: Context) -> None:
         f"_concurrency_limit is assigned in {writers}: the semaphore can be replaced while requests hold it",
         f.loc(),
     )
+    # the same critical section written out: `await limit.acquire()` ... `limit.release()` on every way out
+    acquires, releases = [], []
+    for n in cfg.nodes:
+        for c in ctx.calls(n):
+            if isinstance(c.func, ast.Attribute) and c.func.attr in ("acquire", "release") and not c.args and T.of(cfg, n, c.func.value) == limit:
+                (acquires if c.func.attr == "acquire" else releases).append(n)
+    rel_ids = {n.id for n in releases}
     for s, aw in sends:
         inside = [w for w in withs if cfg.in_region(s, "with", w.ast, "body")]
+        if not inside and acquires:
+            acq_edges = [e for a in acquires for e in ctx.normal_out(cfg, a)]
+            # taken on every path to the send, and not given back in between
+            held = cfg.find_path(cfg.entry.id, s.id, avoid_edges=acq_edges) is None and not any(
+                r in cfg.reachable_from(a.id) and s.id in cfg.reachable_from(r) for a in acquires for r in rel_ids)
+            # once taken it is given back on EVERY way out - from the moment acquire() returned, not only from the send on
+            # (a `not connected` test between acquire() and the try block leaks the slot on that path)
+            leak = None
+            for a_ in acquires:
+                for e_ in ctx.normal_out(cfg, a_):
+                    if e_[1] in rel_ids:
+                        continue
+                    leak = leak or cfg.find_path(e_[1], {cfg.exit.id, cfg.xexit.id}, avoid_nodes=rel_ids)
+            ck.check(
+                "C08.G4",
+                held and leak is None,
+                "request(): the send lies between `await self._concurrency_limit.acquire()` and a `release()` that every way out passes",
+                f"{ctx.fkey(f)}:send-outside-semaphore",
+                "request(): the semaphore is " + ("not held at the send" if not held else "not released on every way out once it was taken: later requests hang"),
+                ctx.loc(f, s),
+                cfg.render_path(leak) if leak else None,
+            )
+            inside = list(acquires) if held and leak is None else []
+            if not inside:
+                continue
         ck.check(
             "C08.G4",
             bool(inside),
@@ -1488,10 +1520,10 @@ def _g4(ctx: Context) -> None:
             )
         ctx.must_pass("C08.G4", cfg, s, "`self.protocol` is set", set_edges,
                       desc="request(): the send is reached only with a protocol")
-    for w in withs:
+    for w in withs + acquires:
         ctx.must_pass("C08.G4", cfg, w, "`self.protocol` is set", set_edges,
                       desc="request(): without a protocol the request is refused before waiting for the semaphore")
-    if not withs:
+    if not withs and not acquires:
         ck.violated("C08.G4", f"{ctx.fkey(f)}:no-semaphore", "request() does not enter `async with self._concurrency_limit`", f.loc())
     # request() returns the reply of its own send
     replies = {("await", T.of(cfg, s, aw.value)) for s, aw in sends}
@@ -1617,6 +1649,13 @@ MANIFEST = {
 TWIN_FILES = ["aiohomekit/controller/ip/connection.py"]
 _CF = "aiohomekit/controller/ip/connection.py"
 VARIANTS = [
+    {
+        "name": "semaphore taken and given back by hand, not given back when the send raises",
+        "file": _CF,
+        "old": "        async with self._concurrency_limit:\n            if not self.protocol:\n                raise AccessoryDisconnectedError(\"Tried to send while not connected\")\n            logger.debug(\"%s: raw request: %r\", self.connected_host, request_bytes)\n            resp = await self.protocol.send_bytes(request_bytes)\n",
+        "new": "        await self._concurrency_limit.acquire()\n        if not self.protocol:\n            self._concurrency_limit.release()\n            raise AccessoryDisconnectedError(\"Tried to send while not connected\")\n        logger.debug(\"%s: raw request: %r\", self.connected_host, request_bytes)\n        resp = await self.protocol.send_bytes(request_bytes)\n        self._concurrency_limit.release()\n",
+        "expect": "C08.G4",
+    },
     {
         "name": "unsolicited response ignored with `continue` (the response object is not renewed)",
         "file": _CF,
